@@ -195,6 +195,8 @@ def _hist_body(ops, ps, reuse_at, which):
             if len(v) == 0:
                 try:
                     v[0:0] = []
+                    v[:] = []          # a second and third write: the first one may have (re-)registered the shared empty storage
+                    v[0:0] = []
                 except AliasError:
                     return H.fail('history %r: empty vector %s refuses a write' % (ops, label))
                 continue
